@@ -46,6 +46,9 @@ def run(ctx, report, clause_eq="1", clause_immut="2"):
                                        d=size(p[3]))) for p in pads[1:]],
         "Alignment": [(a, lambda a=a: ev(f"Alignment(HorizontalAlignmentEnum.{a[0]}, VerticalAlignmentEnum.{a[1]})")) for a in aligns[1:]],
     }
+    families["Region"] = [((e_, o_), lambda e_=e_, o_=o_: ev("Region.from_extent(e, o)", e=ev("Stretch(a, b)", a=size(e_[0]), b=size(e_[1])),
+                                                              o=ev("Point(a, b)", a=size(o_[0]), b=size(o_[1]))))
+                          for e_ in points[:2] for o_ in points[:3]]
     lay_specs = []
     for o, e, p, a in itertools.product([None, points[0], points[1]], [None, points[0], points[2]], pads[:3], aligns[:3]):
         lay_specs.append((o, e, p, a))
@@ -94,6 +97,9 @@ def run(ctx, report, clause_eq="1", clause_immut="2"):
                      {"pairs": len(members) ** 2, "mismatches": bad_ne[:3]}, clause_eq)
         report.check(not bad_hash, "R-EQHASH", site, f"{name}: equal values have equal hashes",
                      {"pairs": len(members) ** 2, "mismatches": bad_hash[:3]}, clause_eq)
+    report.count("geometry_value_pairs_folded", total)
+    if clause_immut is None:
+        return
     # relativizing / fitting leaves the receiver alone
     mutated = []
     lay_cls = ctx.index.get_class("pycaption/geometry.py", "Layout")
@@ -113,4 +119,3 @@ def run(ctx, report, clause_eq="1", clause_immut="2"):
                 mutated.append({"layout": str(spec), "method": meth, "after": str(_snap(lay))[:200]})
     report.check(not mutated, "R-IMMUT", lay_cls.find_method("as_percentage_of"), "relativizing, fitting and testing a Layout "
                  "return values and leave the receiver unchanged", {"layouts": len(lay_specs[::3]), "mismatches": mutated[:3]}, clause_immut)
-    report.count("geometry_value_pairs_folded", total)
